@@ -406,9 +406,24 @@ func objectDefineOwnProperty(obj *object, name string, descriptor property, thro
 
 	// This section will preserve attributes of
 	// the original property, if necessary
+	becomesData := isDataDescriptor
+	switch {
+	case descriptor.isAccessorDescriptor():
+		becomesData = false
+	case descriptor.isDataDescriptor():
+		becomesData = true
+	}
 	value1 := descriptor.value
 	if value1 == nil {
-		value1 = prop.value
+		switch {
+		case becomesData == isDataDescriptor:
+			value1 = prop.value
+		case becomesData:
+			// 8.12.9.9.b: converted from an accessor property, the value defaults to undefined
+			value1 = Value{}
+		default:
+			value1 = propertyGetSet{}
+		}
 	} else if newGetSet, isAccessor := descriptor.value.(propertyGetSet); isAccessor {
 		if newGetSet[0] == &nilGetSetObject {
 			newGetSet[0] = nil
@@ -418,24 +433,23 @@ func objectDefineOwnProperty(obj *object, name string, descriptor property, thro
 		}
 		value1 = newGetSet
 	}
+	mode0 := prop.mode
 	mode1 := descriptor.mode
-	if mode1&0o222 != 0 {
-		// TODO Factor this out into somewhere testable
-		// (Maybe put into switch ...)
-		mode0 := prop.mode
-		if mode1&0o200 != 0 {
-			if descriptor.isDataDescriptor() {
-				mode1 &= ^0o200 // Turn off "writable" missing
-				mode1 |= (mode0 & 0o100)
-			}
+	if mode1&0o200 != 0 {
+		// "writable" is missing from the descriptor
+		mode1 &= ^0o300
+		switch {
+		case !becomesData:
+			mode1 |= 0o200 // An accessor property has no "writable"
+		case isDataDescriptor:
+			mode1 |= (mode0 & 0o100)
 		}
-		if mode1&0o20 != 0 {
-			mode1 |= (mode0 & 0o10)
-		}
-		if mode1&0o2 != 0 {
-			mode1 |= (mode0 & 0o1)
-		}
-		mode1 &= 0o311 // 0311 to preserve the non-setting on "writable"
+	}
+	if mode1&0o20 != 0 {
+		mode1 = (mode1 & ^0o70) | (mode0 & 0o10)
+	}
+	if mode1&0o2 != 0 {
+		mode1 = (mode1 & ^0o7) | (mode0 & 0o1)
 	}
 	obj.writeProperty(name, value1, mode1)
 
